@@ -162,6 +162,9 @@ def store_chain_cases(info):
             if ids != last:
                 seq.append(ids)
                 last = ids
+        if len(seq) > 10:       # the check is quadratic in the history length: keep 10 snapshots spread over the run
+            keep = sorted(set([0, len(seq) - 1] + [i * (len(seq) - 1) // 9 for i in range(10)]))
+            seq = [seq[i] for i in keep]
         out.append("[" + "; ".join("[" + "; ".join(map(str, ids)) + "]" for ids in seq) + "]")
     return out
 
